@@ -1326,6 +1326,9 @@ def explore(run, ctx, max_paths=3000):
             results.append((p, ("raise", pr)))
         except (Unsupported, V.AliasingUnsupported) as u:
             results.append((p, ("unsupported", str(u))))
+        except V.LowerError as u:
+            # a value of the changed code has no counterpart in the value domain: the function left the supported subset
+            results.append((p, ("unsupported", f"value outside the value domain: {u}")))
         work.extend(p.alternatives)
         if len(results) > max_paths:
             results.append((p, ("unsupported", f"more than {max_paths} paths")))
